@@ -529,7 +529,7 @@ def run(R):
                                 sig + ":in-gamut-not-reproduced:baseline=" + c["baseline_kind"])
                 if name == "excitation+weights" and kd in ("inside", "boundary") and c["_ingamut"][i]:
                     # an in-gamut target: the minimum of the documented objective max|e(b)-e(p)| is 0 whatever positive weights are used
-                    # (with weights w the programme works on w*b and w*p; |e(b)-e(p)| <= max(w, 1/w) |e(wb)-e(wp)|, so the accuracy EPS
+                    # (with weights w the programme works on w*b and w*p; |e(b)-e(p)| <= max(w, 1/w) |e(wb)-e(wp)| (theorem Dreye.C07.excite_weight_bound), so the accuracy EPS
                     # granted to the unweighted fit is granted times that factor)
                     tdoc = R.driver.get("w%s_%d" % (k, i)).rat()
                     wfac = float(max(np.max(wv[i]), 1.0 / np.min(wv[i])))
